@@ -54,7 +54,12 @@ func runDrain(cfg *hx.RunCfg) error {
 	}
 	cf := &hx.CaseFile{Imports: imports, Typ: "case", Cases: out,
 		Tail: "Definition M := Eval vm_compute in mismatches check_case cases.\nPrint M.\n" +
-			"Definition NDRAIN := Eval vm_compute in count_if is_drain cases.\nPrint NDRAIN.\n"}
+			"Definition NDRAIN := Eval vm_compute in count_if is_drain cases.\nPrint NDRAIN.\n" +
+			"Definition YAMUXCFGOK := Eval vm_compute in (if yamux_cfg_today_ok then 1 else 0 : Z).\nPrint YAMUXCFGOK.\n" +
+			"Definition YAMUXSAFERATE := Eval vm_compute in yamux_safe_rate.\nPrint YAMUXSAFERATE.\n" +
+			"Definition YAMUXTIMEOUTMS := Eval vm_compute in yamux_default_close_timeout_ms.\nPrint YAMUXTIMEOUTMS.\n" +
+			"Definition YAMUXWINDOW := Eval vm_compute in yamux_window.\nPrint YAMUXWINDOW.\n" +
+			"Definition SLOWWITNESS := Eval vm_compute in (if slow_receiver_witness_truncates then 1 else 0 : Z).\nPrint SLOWWITNESS.\n"}
 	if err := cf.Write(cfg.Out); err != nil {
 		return err
 	}
